@@ -312,6 +312,9 @@ class MultiPaxosNode(Entity):
 
         self._current_ballot = ballot
         self._leader = ballot.node_id
+        if ballot.node_id != self.name:
+            # Accepting another node's ballot means we no longer lead
+            self._is_leader = False
 
         # Append to log (truncate conflicting entries)
         if slot > self._log.last_index:
